@@ -1,5 +1,5 @@
 """C01 — see harness/e2e_props.py (search) and coq/Properties/C01.v (lifting theorem + kernels)."""
-from harness import core, e2e_props
+from harness import c01_strlit, core, e2e_props
 
 PROP = "C01"
 META = {
@@ -13,6 +13,7 @@ META = {
 
 
 def run(ctx):
+    c01_strlit.run(ctx)
     e2e_props.run(ctx, PROP)
     e2e_props.run_sequences(ctx, PROP, 10 if ctx.quick() else 80)
 
